@@ -2181,6 +2181,28 @@ def directed_cases():
             {"k": "user", "w": 4, "rows": [[["a   ", None]], [["b", "b"], ["   ", None]], [["    ", None]]], "cur": None, "mode": "stored"},
         ):
             out.append({"cfg": c2, "palette": [["b", "yellow", "dark red"]], "ops": [["draw", full], ["draw", other], ["equal"], ["draw", full], ["draw", other]]})
+    # regression core for 6c5c71e / 4fdf16d: partial-screen mode, all-space rows below the rows used so far, with a palette
+    # that defines the None entry (the default attribute itself paints a background), or gives the rows a visible attribute
+    for enc in ("utf-8", "iso8859-1"):
+        for colors in (1, 16, 256, 1 << 24):
+            for bce in (True, False):
+                for pal in (
+                    [[None, "light blue", "black"]],
+                    [[None, "default", "dark green"], ["b", "yellow", "dark red"]],
+                    [[None, "default,underline", "default"]],
+                    [[None, "default", "default"], ["b", "default", "dark red"]],
+                    [["b", "default", "dark red"]],
+                ):
+                    cfgp = {"enc": enc, "colors": colors, "bib": True, "bce": bce, "pal_first": False, "alt": False, "base": 0}
+                    for rows in (
+                        [[[" ", None]], [[" ", None]], [[" ", "p2"]]],
+                        [[["ab ", None]], [["   ", None]], [["   ", "b"]], [["   ", None]]],
+                        [[["   ", None]], [["   ", "b"]], [["   ", None]], [["c  ", None]]],
+                    ):
+                        w = len(rows[0][0][0])
+                        d = {"k": "text", "w": w, "rows": rows, "cur": None, "wrap": ["text"]}
+                        out.append({"cfg": cfgp, "palette": pal, "ops": [["draw", d]]})
+                        out.append({"cfg": dict(cfgp, base=1), "palette": pal, "ops": [["draw", d], ["clear"], ["draw", d]]})
     return out
 
 
